@@ -4,6 +4,8 @@ import (
 	"bytes"
 	"encoding/binary"
 	"encoding/gob"
+	"errors"
+	"fmt"
 	"sort"
 	"sync"
 
@@ -31,17 +33,27 @@ func OpenIndexFromBoltDatabase(db *bbolt.DB, opts ...IndexOption) (*Index, error
 
 	err := db.View(func(tx *bbolt.Tx) error {
 		bucket := tx.Bucket([]byte("data"))
+		if bucket == nil {
+			return errors.New("not an updog index: data bucket not found")
+		}
+
 		schemaItem := bucket.Get(keySchema)
+		if schemaItem == nil {
+			return errors.New("not a complete updog index: schema not found")
+		}
 
 		var sch schema
 
 		if err := gob.NewDecoder(bytes.NewReader(schemaItem)).Decode(&sch); err != nil {
-			return err
+			return fmt.Errorf("failed to decode schema: %w", err)
 		}
 
 		idx.schema = &sch
 
 		rowsItem := bucket.Get(keyNextRowID)
+		if len(rowsItem) != 4 {
+			return fmt.Errorf("not a complete updog index: row counter missing or malformed (%d bytes)", len(rowsItem))
+		}
 
 		idx.nextRowID = binary.BigEndian.Uint32(rowsItem)
 		return nil
@@ -57,6 +69,7 @@ func OpenIndexFromBoltDatabase(db *bbolt.DB, opts ...IndexOption) (*Index, error
 
 	for _, opt := range opts {
 		if err := opt(idx); err != nil {
+			db.Close()
 			return nil, err
 		}
 	}
